@@ -28,6 +28,7 @@ import (
 	"github.com/IrineSistiana/mosdns/v5/coremain"
 	"github.com/IrineSistiana/mosdns/v5/pkg/pool"
 	"github.com/IrineSistiana/mosdns/v5/pkg/query_context"
+	"github.com/IrineSistiana/mosdns/v5/pkg/verifpoint"
 	"github.com/IrineSistiana/mosdns/v5/plugin/executable/sequence"
 	"github.com/miekg/dns"
 	"go.uber.org/zap"
@@ -126,11 +127,13 @@ func (f *fallback) doFallback(ctx context.Context, qCtx *query_context.Context) 
 		r := qCtx.R()
 		if err != nil || r == nil {
 			close(primFailed)
+			verifpoint.At("fallback.primary.signalling")
 			respChan <- nil
 		} else {
 			// Queue the response before signaling. Otherwise, a standby
 			// secondary may see primDone and put its response in front of this one.
 			respChan <- r
+			verifpoint.At("fallback.primary.signalling")
 			close(primDone)
 		}
 	}()
